@@ -1159,6 +1159,22 @@ class Exec:
             lst.pos = pos
             lst.from_set = v
             return lst
+        if isinstance(v, VBag):
+            # a list known only through its membership (filtered comprehension, list(set)): some enumeration of
+            # exactly its members; order and multiplicity are left open (duplicates allowed), the length only
+            # bounded by the source's.  An over-approximation of the list the code builds.
+            srt = sort_of(v.kind)
+            n = fresh("bagenum.n", INT)
+            en = fresh("bagenum", ArraySort(INT, srt))
+            pos = fresh("bagenum.pos", ArraySort(srt, INT))
+            self.assume(n >= 0)
+            self.assume((n > 0) == v.nonempty)
+            if getattr(v, "bound", None) is not None:
+                self.assume(n <= v.bound)
+            self.assume(FA([INT], lambda i: Implies(And(0 <= i, i < n), v.contains(en[i])), pats=lambda i: [en[i]]))
+            self.assume(FA([srt], lambda y: Implies(v.contains(y), And(0 <= pos[y], pos[y] < n, en[pos[y]] == y)),
+                           pats=lambda y: [pos[y]]))
+            return VList(n, lambda i: VZ(en[i], v.kind))
         if isinstance(v, VConst) and isinstance(v.py, range):
             r = v.py
             if r.step != 1:
